@@ -28,7 +28,7 @@ SPEC = dict(
         "hand-written model coq/models/Version.v of strutil/version.go, tied by the differential run (harness/overlay/strutil/zz_verif_c33_test.go)",
         "reference model of dpkg's verrevcmp written from lib/dpkg/version.c; cross-checked against /usr/bin/dpkg on a sample",
     ],
-    assumptions=["PARTIAL: transitivity and agreement with dpkg are proved only on complete finite domains (strings <= 2 / <= 3 over `0a.~-`); beyond them they are monitored on the implementation, not proved. Reflexivity, sign flip, antisymmetry, totality, result range and epoch rejection are proved for all byte strings.",
-                 "strings containing a NUL byte are outside the version alphabet (transitivity/dpkg theorems assume no NUL)",
+    assumptions=["PARTIAL: agreement with dpkg is proved only on a complete finite domain (strings <= 3 over `0a.~-`); beyond it it is monitored on the implementation (reference model on every pair, /usr/bin/dpkg on a sample), not proved. Transitivity (strict, both directions) and congruence of equality are proved for all NUL-free byte strings of any length (proofs/VersionOrder.v); reflexivity, sign flip, antisymmetry, totality, result range and epoch rejection for all byte strings.",
+                 "strings containing a NUL byte are outside the version alphabet (the transitivity theorem assumes bytes in 1..255: NUL is the padding byte of cmpString; with NUL inside a fragment transitivity is not claimed)",
                  "dpkg agreement is stated for structurally valid versions: non-empty upstream part, non-empty revision after a hyphen"],
 )
